@@ -1245,7 +1245,7 @@ int vs_waitid(int idtype, id_t id, siginfo_t *info, int options)
         info->si_code = CLD_EXITED;
         info->si_status = WEXITSTATUS(st);
       } else {
-        info->si_code = CLD_KILLED;
+        info->si_code = WCOREDUMP(st) ? CLD_DUMPED : CLD_KILLED;
         info->si_status = WTERMSIG(st);
       }
     }
